@@ -14,11 +14,12 @@ RULE = ("random placed scenes (volume shape, per-face boundary types incl. PML w
         "model tie: per-step correspondence of the Coq model on each orientation of a PML-free scene")
 ASSUMPTIONS = ["equivariance of absorbing layers, full tensors and detectors is measured on the implementation (predicate)"]
 TRUSTED = ["correspondence harness"]
-LEVEL_TEXT = ("Theorem (every PML-free scene of the model, any number of steps): forward commutes with the cyclic relabelling of the axes, as an "
-              "equality of functions (the model keeps the source's per-axis code paths). Scenes with CPML, 9-component tensors and detector records: "
-              "implementation predicate on all three orientations.")
-LEVEL_NOTE = "PARTIAL: CPML loop branches (a == 0/1/2), full tensors, source set-up and detectors are outside the theorem; they are exercised by the orientation triples."
-TECHNIQUE = "Coq proof (definitional equality after relabelling) + differential runs in three orientations"
+LEVEL_TEXT = ("Theorem (every scene of the model incl. any list of CPML layers with a valid axis, any number of steps): forward commutes with the cyclic "
+              "relabelling of the axes, cell by cell, for E, H and the psi accumulators (the model keeps the source's per-axis code paths: the a == 0/1/2 "
+              "branches of the CPML loop and the per-axis difference operators). 9-component tensors, source set-up and detector records: implementation "
+              "predicate on all three orientations.")
+LEVEL_NOTE = "Full tensors, source set-up (incident profiles) and detectors are outside the theorem; they are exercised by the orientation triples through run_fdtd."
+TECHNIQUE = "Coq proof (relabelling commutes with ghost reads, CPML loop and updates) + differential runs in three orientations"
 AX = "xyz"
 
 
